@@ -1330,4 +1330,391 @@ theorem FInv.init (cap W : Nat) (h0 : 0 < cap) (h1 : cap < W) : FInv (St.init Va
 theorem run_FInv (s : St) (ls : List Label) (h : FInv s) (hw : NoWrap (run s ls).ring) : FInv (run s ls) :=
   run_induct FInv step_FInv s ls h hw
 
+/-! ### the closing `notify_waiters` is never lost -/
+
+/-- the source is closed and the closing thread has already executed its `notify_waiters()` -/
+def CN (closed : Bool) (pp : Nat → PPc) : Prop := closed = true ∧ ∀ i, pp i ≠ .ntfW
+abbrev CloseNotified (s : St) : Prop := CN s.closed s.pp
+
+theorem CN_upd (c : Bool) (pp : Nat → PPc) (i : Nat) (pc : PPc) (h : CN c (upd pp i pc)) (hold : pp i ≠ .ntfW) :
+    CN c pp := by
+  refine ⟨h.1, fun j => ?_⟩
+  by_cases hj : j = i
+  · subst hj; exact hold
+  · have := h.2 j; rwa [upd_other _ _ _ _ hj] at this
+theorem CN_upd_ntfW (c : Bool) (pp : Nat → PPc) (i : Nat) : ¬ CN c (upd pp i .ntfW) := by
+  intro h; have := h.2 i; simp at this
+theorem CN_closed (c : Bool) (pp : Nat → PPc) (h : CN c pp) : c = true := h.1
+
+/-- the generation captured by the consumer's `Notified`, if it holds one -/
+def capturedGen : CPc → Option Nat
+  | .ldEnded g => some g
+  | .lock g => some g
+  | .ldClosed1 g => some g
+  | .pop g _ _ => some g
+  | .await1 g => some g
+  | _ => none
+
+structure NInv (s : St) : Prop where
+  genLe : ∀ g, capturedGen s.cp = some g → g ≤ s.ntf.gen
+  popLt : ∀ g p, s.cp = .pop g false p → CN s.closed s.pp → g < s.ntf.gen
+  awaitLt : ∀ g, s.cp = .await1 g → CN s.closed s.pp → g < s.ntf.gen
+  regOrWoken : s.cp = .await2 → s.ntf.reg = true ∨ s.ntf.woken = true
+  woken : s.cp = .await2 → CN s.closed s.pp → s.ntf.woken = true
+  noOld : s.cp ≠ .ldClosedOld
+
+theorem stepP_NInv_none (s : St) (i : Nat) (op : Option POp)  (hpc : s.pp i = .none )
+    (hL : LInv s) (h : NInv s) : NInv (stepP s i op) := by
+  obtain ⟨n1, n2, n3, n4, n5, n6⟩ := h
+  have hp : s.v.plock = true := by rw [hL.var]; rfl
+  simp only [stepP, hpc, startP, St.endSample, St.beginSample, St.setP, hp, if_true]
+  repeat' split
+  all_goals first
+    | exact ⟨n1, n2, n3, n4, n5, n6⟩
+    | (refine ⟨?_, ?_, ?_, ?_, ?_, ?_⟩ <;> grind [capturedGen, upd, Notify.one, Notify.waiters, CN_upd, CN_upd_ntfW, CN_closed])
+
+theorem stepP_NInv_reserved (s : St) (i : Nat) (op : Option POp)  (hpc : s.pp i = .reserved )
+    (hL : LInv s) (h : NInv s) : NInv (stepP s i op) := by
+  obtain ⟨n1, n2, n3, n4, n5, n6⟩ := h
+  have hp : s.v.plock = true := by rw [hL.var]; rfl
+  simp only [stepP, hpc, startP, St.endSample, St.beginSample, St.setP, hp, if_true]
+  repeat' split
+  all_goals first
+    | exact ⟨n1, n2, n3, n4, n5, n6⟩
+    | (refine ⟨?_, ?_, ?_, ?_, ?_, ?_⟩ <;> grind [capturedGen, upd, Notify.one, Notify.waiters, CN_upd, CN_upd_ntfW, CN_closed])
+
+theorem stepP_NInv_gone (s : St) (i : Nat) (op : Option POp)  (hpc : s.pp i = .gone )
+    (hL : LInv s) (h : NInv s) : NInv (stepP s i op) := by
+  obtain ⟨n1, n2, n3, n4, n5, n6⟩ := h
+  have hp : s.v.plock = true := by rw [hL.var]; rfl
+  simp only [stepP, hpc, startP, St.endSample, St.beginSample, St.setP, hp, if_true]
+  repeat' split
+  all_goals first
+    | exact ⟨n1, n2, n3, n4, n5, n6⟩
+    | (refine ⟨?_, ?_, ?_, ?_, ?_, ?_⟩ <;> grind [capturedGen, upd, Notify.one, Notify.waiters, CN_upd, CN_upd_ntfW, CN_closed])
+
+theorem stepP_NInv_idle (s : St) (i : Nat) (op : Option POp)  (hpc : s.pp i = .idle )
+    (hL : LInv s) (h : NInv s) : NInv (stepP s i op) := by
+  obtain ⟨n1, n2, n3, n4, n5, n6⟩ := h
+  have hp : s.v.plock = true := by rw [hL.var]; rfl
+  simp only [stepP, hpc, startP, St.endSample, St.beginSample, St.setP, hp, if_true]
+  repeat' split
+  all_goals first
+    | exact ⟨n1, n2, n3, n4, n5, n6⟩
+    | (refine ⟨?_, ?_, ?_, ?_, ?_, ?_⟩ <;> grind [capturedGen, upd, Notify.one, Notify.waiters, CN_upd, CN_upd_ntfW, CN_closed])
+
+theorem stepP_NInv_acq (s : St) (i : Nat) (op : Option POp) (k v rest) (hpc : s.pp i = .acq k v rest)
+    (hL : LInv s) (h : NInv s) : NInv (stepP s i op) := by
+  obtain ⟨n1, n2, n3, n4, n5, n6⟩ := h
+  have hp : s.v.plock = true := by rw [hL.var]; rfl
+  simp only [stepP, hpc, startP, St.endSample, St.beginSample, St.setP, hp, if_true]
+  repeat' split
+  all_goals first
+    | exact ⟨n1, n2, n3, n4, n5, n6⟩
+    | (refine ⟨?_, ?_, ?_, ?_, ?_, ?_⟩ <;> grind [capturedGen, upd, Notify.one, Notify.waiters, CN_upd, CN_upd_ntfW, CN_closed])
+
+theorem stepP_NInv_chk (s : St) (i : Nat) (op : Option POp) (k v rest) (hpc : s.pp i = .chk k v rest)
+    (hL : LInv s) (h : NInv s) : NInv (stepP s i op) := by
+  obtain ⟨n1, n2, n3, n4, n5, n6⟩ := h
+  have hp : s.v.plock = true := by rw [hL.var]; rfl
+  simp only [stepP, hpc, startP, St.endSample, St.beginSample, St.setP, hp, if_true]
+  repeat' split
+  all_goals first
+    | exact ⟨n1, n2, n3, n4, n5, n6⟩
+    | (refine ⟨?_, ?_, ?_, ?_, ?_, ?_⟩ <;> grind [capturedGen, upd, Notify.one, Notify.waiters, CN_upd, CN_upd_ntfW, CN_closed])
+
+theorem stepP_NInv_push (s : St) (i : Nat) (op : Option POp) (c v rest p) (hpc : s.pp i = .push c v rest p)
+    (hL : LInv s) (h : NInv s) : NInv (stepP s i op) := by
+  obtain ⟨n1, n2, n3, n4, n5, n6⟩ := h
+  have hp : s.v.plock = true := by rw [hL.var]; rfl
+  simp only [stepP, hpc, startP, St.endSample, St.beginSample, St.setP, hp, if_true]
+  repeat' split
+  all_goals first
+    | exact ⟨n1, n2, n3, n4, n5, n6⟩
+    | (refine ⟨?_, ?_, ?_, ?_, ?_, ?_⟩ <;> grind [capturedGen, upd, Notify.one, Notify.waiters, CN_upd, CN_upd_ntfW, CN_closed])
+
+theorem stepP_NInv_ntf (s : St) (i : Nat) (op : Option POp) (c rest) (hpc : s.pp i = .ntf c rest)
+    (hL : LInv s) (h : NInv s) : NInv (stepP s i op) := by
+  obtain ⟨n1, n2, n3, n4, n5, n6⟩ := h
+  have hp : s.v.plock = true := by rw [hL.var]; rfl
+  simp only [stepP, hpc, startP, St.endSample, St.beginSample, St.setP, hp, if_true]
+  repeat' split
+  all_goals first
+    | exact ⟨n1, n2, n3, n4, n5, n6⟩
+    | (refine ⟨?_, ?_, ?_, ?_, ?_, ?_⟩ <;> grind [capturedGen, upd, Notify.one, Notify.waiters, CN_upd, CN_upd_ntfW, CN_closed])
+
+theorem stepP_NInv_tryLock (s : St) (i : Nat) (op : Option POp) (v rest) (hpc : s.pp i = .tryLock v rest)
+    (hL : LInv s) (h : NInv s) : NInv (stepP s i op) := by
+  obtain ⟨n1, n2, n3, n4, n5, n6⟩ := h
+  have hp : s.v.plock = true := by rw [hL.var]; rfl
+  simp only [stepP, hpc, startP, St.endSample, St.beginSample, St.setP, hp, if_true]
+  repeat' split
+  all_goals first
+    | exact ⟨n1, n2, n3, n4, n5, n6⟩
+    | (refine ⟨?_, ?_, ?_, ?_, ?_, ?_⟩ <;> grind [capturedGen, upd, Notify.one, Notify.waiters, CN_upd, CN_upd_ntfW, CN_closed])
+
+theorem stepP_NInv_pop (s : St) (i : Nat) (op : Option POp) (v rest p) (hpc : s.pp i = .pop v rest p)
+    (hL : LInv s) (h : NInv s) : NInv (stepP s i op) := by
+  obtain ⟨n1, n2, n3, n4, n5, n6⟩ := h
+  have hp : s.v.plock = true := by rw [hL.var]; rfl
+  simp only [stepP, hpc, startP, St.endSample, St.beginSample, St.setP, hp, if_true]
+  repeat' split
+  all_goals first
+    | exact ⟨n1, n2, n3, n4, n5, n6⟩
+    | (refine ⟨?_, ?_, ?_, ?_, ?_, ?_⟩ <;> grind [capturedGen, upd, Notify.one, Notify.waiters, CN_upd, CN_upd_ntfW, CN_closed])
+
+theorem stepP_NInv_clone (s : St) (i : Nat) (op : Option POp) (j') (hpc : s.pp i = .clone j')
+    (hL : LInv s) (h : NInv s) : NInv (stepP s i op) := by
+  obtain ⟨n1, n2, n3, n4, n5, n6⟩ := h
+  have hp : s.v.plock = true := by rw [hL.var]; rfl
+  have hres := hL.cloneRes i j' hpc
+  simp only [stepP, hpc, startP, St.endSample, St.beginSample, St.setP, hp, if_true]
+  repeat' split
+  all_goals first
+    | exact ⟨n1, n2, n3, n4, n5, n6⟩
+    | (refine ⟨?_, ?_, ?_, ?_, ?_, ?_⟩ <;> grind [capturedGen, upd, Notify.one, Notify.waiters, CN_upd, CN_upd_ntfW, CN_closed])
+
+theorem stepP_NInv_fetchSub (s : St) (i : Nat) (op : Option POp)  (hpc : s.pp i = .fetchSub )
+    (hL : LInv s) (h : NInv s) : NInv (stepP s i op) := by
+  obtain ⟨n1, n2, n3, n4, n5, n6⟩ := h
+  have hp : s.v.plock = true := by rw [hL.var]; rfl
+  simp only [stepP, hpc, startP, St.endSample, St.beginSample, St.setP, hp, if_true]
+  repeat' split
+  all_goals first
+    | exact ⟨n1, n2, n3, n4, n5, n6⟩
+    | (refine ⟨?_, ?_, ?_, ?_, ?_, ?_⟩ <;> grind [capturedGen, upd, Notify.one, Notify.waiters, CN_upd, CN_upd_ntfW, CN_closed])
+
+theorem stepP_NInv_stClosed (s : St) (i : Nat) (op : Option POp)  (hpc : s.pp i = .stClosed )
+    (hL : LInv s) (h : NInv s) : NInv (stepP s i op) := by
+  obtain ⟨n1, n2, n3, n4, n5, n6⟩ := h
+  have hp : s.v.plock = true := by rw [hL.var]; rfl
+  simp only [stepP, hpc, startP, St.endSample, St.beginSample, St.setP, hp, if_true]
+  repeat' split
+  all_goals first
+    | exact ⟨n1, n2, n3, n4, n5, n6⟩
+    | (refine ⟨?_, ?_, ?_, ?_, ?_, ?_⟩ <;> grind [capturedGen, upd, Notify.one, Notify.waiters, CN_upd, CN_upd_ntfW, CN_closed])
+
+theorem stepP_NInv_ntfW (s : St) (i : Nat) (op : Option POp)  (hpc : s.pp i = .ntfW )
+    (hL : LInv s) (h : NInv s) : NInv (stepP s i op) := by
+  obtain ⟨n1, n2, n3, n4, n5, n6⟩ := h
+  have hp : s.v.plock = true := by rw [hL.var]; rfl
+  simp only [stepP, hpc, startP, St.endSample, St.beginSample, St.setP, hp, if_true]
+  repeat' split
+  all_goals first
+    | exact ⟨n1, n2, n3, n4, n5, n6⟩
+    | (refine ⟨?_, ?_, ?_, ?_, ?_, ?_⟩ <;> grind [capturedGen, upd, Notify.one, Notify.waiters, CN_upd, CN_upd_ntfW, CN_closed])
+
+theorem stepC_NInv_idle (s : St) (start : Bool)  (hpc : s.cp = .idle )
+    (hL : LInv s) (h : NInv s) : NInv (stepC s start) := by
+  obtain ⟨n1, n2, n3, n4, n5, n6⟩ := h
+  have hr : s.v.rfix = true := by rw [hL.var]; rfl
+  simp only [stepC, hpc, St.loopTop, St.retC, hr, if_true]
+  repeat' split
+  all_goals first
+    | exact ⟨n1, n2, n3, n4, n5, n6⟩
+    | (refine ⟨?_, ?_, ?_, ?_, ?_, ?_⟩ <;> grind [capturedGen, upd, Notify.one, Notify.waiters, CN_upd, CN_upd_ntfW, CN_closed])
+
+theorem stepC_NInv_mkNtf (s : St) (start : Bool)  (hpc : s.cp = .mkNtf )
+    (hL : LInv s) (h : NInv s) : NInv (stepC s start) := by
+  obtain ⟨n1, n2, n3, n4, n5, n6⟩ := h
+  have hr : s.v.rfix = true := by rw [hL.var]; rfl
+  simp only [stepC, hpc, St.loopTop, St.retC, hr, if_true]
+  repeat' split
+  all_goals first
+    | exact ⟨n1, n2, n3, n4, n5, n6⟩
+    | (refine ⟨?_, ?_, ?_, ?_, ?_, ?_⟩ <;> grind [capturedGen, upd, Notify.one, Notify.waiters, CN_upd, CN_upd_ntfW, CN_closed])
+
+theorem stepC_NInv_ldEnded (s : St) (start : Bool) (g) (hpc : s.cp = .ldEnded g)
+    (hL : LInv s) (h : NInv s) : NInv (stepC s start) := by
+  obtain ⟨n1, n2, n3, n4, n5, n6⟩ := h
+  have hr : s.v.rfix = true := by rw [hL.var]; rfl
+  simp only [stepC, hpc, St.loopTop, St.retC, hr, if_true]
+  repeat' split
+  all_goals first
+    | exact ⟨n1, n2, n3, n4, n5, n6⟩
+    | (refine ⟨?_, ?_, ?_, ?_, ?_, ?_⟩ <;> grind [capturedGen, upd, Notify.one, Notify.waiters, CN_upd, CN_upd_ntfW, CN_closed])
+
+theorem stepC_NInv_lock (s : St) (start : Bool) (g) (hpc : s.cp = .lock g)
+    (hL : LInv s) (h : NInv s) : NInv (stepC s start) := by
+  obtain ⟨n1, n2, n3, n4, n5, n6⟩ := h
+  have hr : s.v.rfix = true := by rw [hL.var]; rfl
+  simp only [stepC, hpc, St.loopTop, St.retC, hr, if_true]
+  repeat' split
+  all_goals first
+    | exact ⟨n1, n2, n3, n4, n5, n6⟩
+    | (refine ⟨?_, ?_, ?_, ?_, ?_, ?_⟩ <;> grind [capturedGen, upd, Notify.one, Notify.waiters, CN_upd, CN_upd_ntfW, CN_closed])
+
+theorem stepC_NInv_ldClosed1 (s : St) (start : Bool) (g) (hpc : s.cp = .ldClosed1 g)
+    (hL : LInv s) (h : NInv s) : NInv (stepC s start) := by
+  obtain ⟨n1, n2, n3, n4, n5, n6⟩ := h
+  have hr : s.v.rfix = true := by rw [hL.var]; rfl
+  simp only [stepC, hpc, St.loopTop, St.retC, hr, if_true]
+  repeat' split
+  all_goals first
+    | exact ⟨n1, n2, n3, n4, n5, n6⟩
+    | (refine ⟨?_, ?_, ?_, ?_, ?_, ?_⟩ <;> grind [capturedGen, upd, Notify.one, Notify.waiters, CN_upd, CN_upd_ntfW, CN_closed])
+
+theorem stepC_NInv_pop (s : St) (start : Bool) (g cl p) (hpc : s.cp = .pop g cl p)
+    (hL : LInv s) (h : NInv s) : NInv (stepC s start) := by
+  obtain ⟨n1, n2, n3, n4, n5, n6⟩ := h
+  have hr : s.v.rfix = true := by rw [hL.var]; rfl
+  simp only [stepC, hpc, St.loopTop, St.retC, hr, if_true]
+  repeat' split
+  all_goals first
+    | exact ⟨n1, n2, n3, n4, n5, n6⟩
+    | (refine ⟨?_, ?_, ?_, ?_, ?_, ?_⟩ <;> grind [capturedGen, upd, Notify.one, Notify.waiters, CN_upd, CN_upd_ntfW, CN_closed])
+
+theorem stepC_NInv_ldClosedOld (s : St) (start : Bool)  (hpc : s.cp = .ldClosedOld )
+    (hL : LInv s) (h : NInv s) : NInv (stepC s start) := by
+  obtain ⟨n1, n2, n3, n4, n5, n6⟩ := h
+  have hr : s.v.rfix = true := by rw [hL.var]; rfl
+  simp only [stepC, hpc, St.loopTop, St.retC, hr, if_true]
+  repeat' split
+  all_goals first
+    | exact ⟨n1, n2, n3, n4, n5, n6⟩
+    | (refine ⟨?_, ?_, ?_, ?_, ?_, ?_⟩ <;> grind [capturedGen, upd, Notify.one, Notify.waiters, CN_upd, CN_upd_ntfW, CN_closed])
+
+theorem stepC_NInv_stEnded (s : St) (start : Bool)  (hpc : s.cp = .stEnded )
+    (hL : LInv s) (h : NInv s) : NInv (stepC s start) := by
+  obtain ⟨n1, n2, n3, n4, n5, n6⟩ := h
+  have hr : s.v.rfix = true := by rw [hL.var]; rfl
+  simp only [stepC, hpc, St.loopTop, St.retC, hr, if_true]
+  repeat' split
+  all_goals first
+    | exact ⟨n1, n2, n3, n4, n5, n6⟩
+    | (refine ⟨?_, ?_, ?_, ?_, ?_, ?_⟩ <;> grind [capturedGen, upd, Notify.one, Notify.waiters, CN_upd, CN_upd_ntfW, CN_closed])
+
+theorem stepC_NInv_await1 (s : St) (start : Bool) (g) (hpc : s.cp = .await1 g)
+    (hL : LInv s) (h : NInv s) : NInv (stepC s start) := by
+  obtain ⟨n1, n2, n3, n4, n5, n6⟩ := h
+  have hr : s.v.rfix = true := by rw [hL.var]; rfl
+  simp only [stepC, hpc, St.loopTop, St.retC, hr, if_true]
+  repeat' split
+  all_goals first
+    | exact ⟨n1, n2, n3, n4, n5, n6⟩
+    | (refine ⟨?_, ?_, ?_, ?_, ?_, ?_⟩ <;> grind [capturedGen, upd, Notify.one, Notify.waiters, CN_upd, CN_upd_ntfW, CN_closed])
+
+theorem stepC_NInv_await2 (s : St) (start : Bool)  (hpc : s.cp = .await2 )
+    (hL : LInv s) (h : NInv s) : NInv (stepC s start) := by
+  obtain ⟨n1, n2, n3, n4, n5, n6⟩ := h
+  have hr : s.v.rfix = true := by rw [hL.var]; rfl
+  simp only [stepC, hpc, St.loopTop, St.retC, hr, if_true]
+  repeat' split
+  all_goals first
+    | exact ⟨n1, n2, n3, n4, n5, n6⟩
+    | (refine ⟨?_, ?_, ?_, ?_, ?_, ?_⟩ <;> grind [capturedGen, upd, Notify.one, Notify.waiters, CN_upd, CN_upd_ntfW, CN_closed])
+
+theorem stepC_NInv_ldClosed2 (s : St) (start : Bool)  (hpc : s.cp = .ldClosed2 )
+    (hL : LInv s) (h : NInv s) : NInv (stepC s start) := by
+  obtain ⟨n1, n2, n3, n4, n5, n6⟩ := h
+  have hr : s.v.rfix = true := by rw [hL.var]; rfl
+  simp only [stepC, hpc, St.loopTop, St.retC, hr, if_true]
+  repeat' split
+  all_goals first
+    | exact ⟨n1, n2, n3, n4, n5, n6⟩
+    | (refine ⟨?_, ?_, ?_, ?_, ?_, ?_⟩ <;> grind [capturedGen, upd, Notify.one, Notify.waiters, CN_upd, CN_upd_ntfW, CN_closed])
+
+theorem stepC_NInv_isEmpty (s : St) (start : Bool)  (hpc : s.cp = .isEmpty )
+    (hL : LInv s) (h : NInv s) : NInv (stepC s start) := by
+  obtain ⟨n1, n2, n3, n4, n5, n6⟩ := h
+  have hr : s.v.rfix = true := by rw [hL.var]; rfl
+  simp only [stepC, hpc, St.loopTop, St.retC, hr, if_true]
+  repeat' split
+  all_goals first
+    | exact ⟨n1, n2, n3, n4, n5, n6⟩
+    | (refine ⟨?_, ?_, ?_, ?_, ?_, ?_⟩ <;> grind [capturedGen, upd, Notify.one, Notify.waiters, CN_upd, CN_upd_ntfW, CN_closed])
+
+theorem stepC_NInv_stEnded2 (s : St) (start : Bool)  (hpc : s.cp = .stEnded2 )
+    (hL : LInv s) (h : NInv s) : NInv (stepC s start) := by
+  obtain ⟨n1, n2, n3, n4, n5, n6⟩ := h
+  have hr : s.v.rfix = true := by rw [hL.var]; rfl
+  simp only [stepC, hpc, St.loopTop, St.retC, hr, if_true]
+  repeat' split
+  all_goals first
+    | exact ⟨n1, n2, n3, n4, n5, n6⟩
+    | (refine ⟨?_, ?_, ?_, ?_, ?_, ?_⟩ <;> grind [capturedGen, upd, Notify.one, Notify.waiters, CN_upd, CN_upd_ntfW, CN_closed])
+
+theorem stepS_NInv (s : St) (start : Bool) (h : NInv s) : NInv (stepS s start) := by
+  obtain ⟨n1, n2, n3, n4, n5, n6⟩ := h
+  simp only [stepS]
+  repeat' split
+  all_goals first
+    | exact ⟨n1, n2, n3, n4, n5, n6⟩
+    | (refine ⟨?_, ?_, ?_, ?_, ?_, ?_⟩ <;> grind [capturedGen, Notify.waiters, CN_closed])
+
+theorem stepP_NInv (s : St) (i : Nat) (op : Option POp) (hL : LInv s) (h : NInv s) : NInv (stepP s i op) := by
+  cases hpc : s.pp i with
+  | none  => exact stepP_NInv_none s i op  hpc hL h
+  | reserved  => exact stepP_NInv_reserved s i op  hpc hL h
+  | gone  => exact stepP_NInv_gone s i op  hpc hL h
+  | idle  => exact stepP_NInv_idle s i op  hpc hL h
+  | acq k v rest => exact stepP_NInv_acq s i op k v rest hpc hL h
+  | chk k v rest => exact stepP_NInv_chk s i op k v rest hpc hL h
+  | push c v rest p => exact stepP_NInv_push s i op c v rest p hpc hL h
+  | ntf c rest => exact stepP_NInv_ntf s i op c rest hpc hL h
+  | tryLock v rest => exact stepP_NInv_tryLock s i op v rest hpc hL h
+  | pop v rest p => exact stepP_NInv_pop s i op v rest p hpc hL h
+  | clone j' => exact stepP_NInv_clone s i op j' hpc hL h
+  | fetchSub  => exact stepP_NInv_fetchSub s i op  hpc hL h
+  | stClosed  => exact stepP_NInv_stClosed s i op  hpc hL h
+  | ntfW  => exact stepP_NInv_ntfW s i op  hpc hL h
+
+theorem stepC_NInv (s : St) (start : Bool) (hL : LInv s) (h : NInv s) : NInv (stepC s start) := by
+  cases hpc : s.cp with
+  | idle  => exact stepC_NInv_idle s start  hpc hL h
+  | mkNtf  => exact stepC_NInv_mkNtf s start  hpc hL h
+  | ldEnded g => exact stepC_NInv_ldEnded s start g hpc hL h
+  | lock g => exact stepC_NInv_lock s start g hpc hL h
+  | ldClosed1 g => exact stepC_NInv_ldClosed1 s start g hpc hL h
+  | pop g cl p => exact stepC_NInv_pop s start g cl p hpc hL h
+  | ldClosedOld  => exact stepC_NInv_ldClosedOld s start  hpc hL h
+  | stEnded  => exact stepC_NInv_stEnded s start  hpc hL h
+  | await1 g => exact stepC_NInv_await1 s start g hpc hL h
+  | await2  => exact stepC_NInv_await2 s start  hpc hL h
+  | ldClosed2  => exact stepC_NInv_ldClosed2 s start  hpc hL h
+  | isEmpty  => exact stepC_NInv_isEmpty s start  hpc hL h
+  | stEnded2  => exact stepC_NInv_stEnded2 s start  hpc hL h
+
+theorem NInv.init (cap W : Nat) : NInv (St.init Variant.cur cap W 0) := by
+  refine ⟨?_, ?_, ?_, ?_, ?_, ?_⟩ <;> simp [St.init, capturedGen]
+
+/-- control invariant + wake-up invariant (independent of the ring, hence of `NoWrap`) -/
+structure WInv (s : St) : Prop where
+  l : LInv s
+  n : NInv s
+
+theorem step_WInv (s : St) (l : Label) (h : WInv s) : WInv (step s l) := by
+  refine ⟨step_LInv s l h.l, ?_⟩
+  cases l with
+  | prod i op => exact stepP_NInv s i op h.l h.n
+  | cons st => exact stepC_NInv s st h.l h.n
+  | stop st => exact stepS_NInv s st h.n
+
+theorem run_WInv (s : St) (ls : List Label) (h : WInv s) : WInv (run s ls) := by
+  induction ls generalizing s with
+  | nil => exact h
+  | cons l ls ih => exact ih (step s l) (step_WInv s l h)
+
+/-- once every source is dropped and the closing `notify_waiters` has run, the consumer is never
+blocked: its waiter has been woken, and nobody holds the lock it may be waiting for -/
+theorem not_blocked_after_close (s : St) (h : WInv s) (hc : s.closed = true)
+    (hg : ∀ i, s.pp i = .none ∨ s.pp i = .reserved ∨ s.pp i = .gone) : blocked s (.cons false) = false := by
+  have hcn : CN s.closed s.pp := ⟨hc, fun i => by rcases hg i with e | e | e <;> simp [e]⟩
+  simp only [blocked]
+  split
+  · rename_i g hcp
+    -- waiting for pop_lock: nobody holds it
+    cases hpl : s.poplock with
+    | none => rfl
+    | some t =>
+      cases t with
+      | prod i =>
+        have := (h.l.poplockP i).2 hpl
+        rcases hg i with e | e | e <;> simp [e, holdsPopP] at this
+      | cons => have := h.l.poplockC.2 hpl; simp [hcp, holdsPopC] at this
+      | stop => exact absurd hpl h.l.poplockStop
+  · rename_i hcp
+    simp [h.n.woken hcp hcn]
+  · rfl
+
 end RtcModel.SpscTrack
